@@ -16,6 +16,7 @@ type c01Case struct {
 	Vars   map[string]Val `json:"vars,omitempty"`
 	Ops    string         `json:"ops,omitempty"`
 	Wrap   string         `json:"wrap,omitempty"` // print | assign | for
+	Toks2  []Tok          `json:"toks2,omitempty"` // mode pair: a second expression printed after the first in the same template
 }
 
 func c01Source(cs c01Case) string {
@@ -30,11 +31,28 @@ func c01Source(cs c01Case) string {
 	case "for":
 		return "@for(i = 0; i < " + body + "; i++)x@end"
 	}
+	if len(cs.Toks2) > 0 {
+		return "{{" + pad + body + pad + "}}|{{" + pad + renderToks(cs.Toks2, cs.Layout) + pad + "}}"
+	}
 	return "{{" + pad + body + pad + "}}"
 }
 
 // c01Expect evaluates the token list in the model.
 func c01Expect(cs c01Case) Expect {
+	if len(cs.Toks2) > 0 {
+		// two expressions of one template are evaluated independently of each other
+		a, b := cs, cs
+		a.Toks2, b.Toks2 = nil, nil
+		b.Toks = cs.Toks2
+		ea, eb := c01Expect(a), c01Expect(b)
+		switch {
+		case ea.Kind == EError || (ea.Kind == EValue && eb.Kind == EError):
+			return Expect{Kind: EError}
+		case ea.Kind == EValue && eb.Kind == EValue:
+			return Expect{Kind: EValue, Text: ea.Text + "|" + eb.Text}
+		}
+		return Expect{Kind: EUnspec}
+	}
 	tree, ok := group(cs.Toks)
 	if !ok {
 		return Expect{Kind: EUnspec}
@@ -455,6 +473,9 @@ func c01Run(c *Ctx) {
 	// (b) typed trees with index, property access, calls, prefix and postfix operators
 	c01Trees(c, do)
 
+	// (f) pairs of expressions in one template, numerals with leading zeros
+	c01Pairs(c, do)
+
 	// (e) boundary integers
 	if c.Mine() {
 		maxI, minI := int64(math.MaxInt64), int64(math.MinInt64)
@@ -485,6 +506,39 @@ func c01Run(c *Ctx) {
 				if !do(cs) {
 					return
 				}
+			}
+		}
+	}
+}
+
+// c01Pairs: every ordered pair of a small set of expressions whose values are easy to confuse (the two zeros,
+// equal numbers of different type, numerals with leading zeros, numeric strings) printed by one template:
+// what one expression evaluates to never depends on what was evaluated before it.
+func c01Pairs(c *Ctx, do func(c01Case) bool) {
+	if !c.Mine() {
+		return
+	}
+	lz := func(src string, v int64) Tok { x := vInt(v); return Tok{K: "lit", Src: src, V: &x} }
+	base := [][]Tok{
+		{tLit(vInt(0))}, {tLit(vFloat(0))}, {tOp("-"), tLit(vFloat(0))}, {tID("z")}, {tOp("-"), tID("z")}, {tID("nz")},
+		{tLit(vInt(1))}, {tLit(vFloat(1))}, {tLit(vStr("1"))}, {tLit(vBool(true))}, {tLit(vInt(10))}, {lz("010", 10)}, {lz("0100", 100)},
+		{lz("08", 8)}, {lz("007", 7)}, {lz("00", 0)}, {tLit(vFloat(1.5))}, {tOp("-"), tLit(vFloat(1.5))}, {tLit(vFloat(10))}, {tLit(vStr("10"))},
+		{tLit(vFloat(0.1)), tOp("+"), tLit(vFloat(0.2))}, {tLit(vFloat(0.5)), tOp("-"), tLit(vFloat(0.5))}, {tLit(vInt(2)), tOp("*"), lz("0100", 100), tOp("-"), lz("017", 17)},
+		{tLit(vStr(""))}, {tLit(vBool(false))}, {tLit(vNil())}, {tID("i")}, {tID("i"), tOp("++")}, {tID("f"), tOp("--")}, {tID("f")},
+		{tLit(vInt(1)), tOp("=="), tLit(vInt(1))}, {tLit(vFloat(3)), tOp("*"), tLit(vFloat(0))}, {tOp("-"), tLit(vFloat(3)), tOp("*"), tLit(vFloat(0))},
+	}
+	vars := map[string]Val{"z": vFloat(0), "nz": vFloat(math.Copysign(0, -1)), "i": vInt(10), "f": vFloat(2.5)}
+	for _, a := range base {
+		cs := c01Case{Mode: "single", Toks: a, Vars: vars, Wrap: "print", Layout: 1}
+		c.Case(true)
+		if !do(cs) {
+			return
+		}
+		for _, b := range base {
+			cs := c01Case{Mode: "pair", Toks: a, Toks2: b, Vars: vars, Wrap: "print", Layout: 1}
+			c.Case(true)
+			if !do(cs) {
+				return
 			}
 		}
 	}
